@@ -4,7 +4,7 @@ Extracted: the early-return tests of `Catcher.__exit__` in source order, the eff
 `__exit__` (flag set / `_log` inside try / flag reset in finally / onerror / `return not reraise`),
 the depth increment for decorators, the `return not reraise` kernel, the `from_decorator` constants
 of the two `Catcher(...)` constructions, the shape of the four wrapper branches of
-`Catcher.__call__`, the pass-through `athrow`, and the delegation of `__aenter__/__aexit__`.
+`Catcher.__call__`, the pass-through `athrow` and `aclose`, and the delegation of `__aenter__/__aexit__`.
 Fails closed on any other shape.
 """
 import ast
@@ -152,9 +152,9 @@ def _asyncgen_branch(stmts, catcher_name):
     if [U(b) for b in cls.bases] != ["AsyncGenerator"] or cls.keywords or cls.decorator_list:
         raise Unsupported("wrapper class bases: " + U(cls)[:80])
     ms = _methods(cls)
-    if sorted(ms) != ["__init__", "asend", "athrow"]:
+    if sorted(ms) != ["__init__", "aclose", "asend", "athrow"]:
         raise Unsupported("wrapper class methods: %s" % sorted(ms))
-    if len([n for n in cls.body if not (isinstance(n, ast.Expr) and isinstance(n.value, ast.Constant))]) != 3:
+    if len([n for n in cls.body if not (isinstance(n, ast.Expr) and isinstance(n.value, ast.Constant))]) != 4:
         raise Unsupported("wrapper class has other members")
     if U(ms["__init__"].args) != "self, gen" or [U(s) for s in _strip_doc(ms["__init__"].body)] != ["self._gen = gen"]:
         raise Unsupported("wrapper __init__")
@@ -170,6 +170,10 @@ def _asyncgen_branch(stmts, catcher_name):
     if not isinstance(t, ast.AsyncFunctionDef) or U(t.args) != "self, *args, **kwargs" \
             or [U(s) for s in _strip_doc(t.body)] != ["return await self._gen.athrow(*args, **kwargs)"]:
         raise Unsupported("athrow is not a plain pass-through: " + U(t))
+    c = ms["aclose"]
+    if not isinstance(c, ast.AsyncFunctionDef) or U(c.args) != "self" or c.decorator_list \
+            or [U(s) for s in _strip_doc(c.body)] != ["return await self._gen.aclose()"]:
+        raise Unsupported("aclose is not a plain pass-through to the wrapped generator's aclose: " + U(c))
     if U(fn.args) != "*args, **kwargs" or [U(s) for s in _strip_doc(fn.body)] != \
             ["gen = function(*args, **kwargs)", "return %s(gen)" % cls.name]:
         raise Unsupported("async generator catch_wrapper: " + U(fn))
@@ -275,6 +279,8 @@ def generate():
                 lean_chars(p), "true" if a else "false", i, f) for p, a, i, f in shapes) + "]\n\n"
         body += "/-- `AsyncGenCatchWrapper.athrow` is `return await self._gen.athrow(*args, **kwargs)` -/\n"
         body += "def athrowPassThrough : Bool := true\n"
+        body += "/-- `AsyncGenCatchWrapper.aclose` is `return await self._gen.aclose()` -/\n"
+        body += "def aclosePassThrough : Bool := true\n"
         body += "/-- `__aenter__/__aexit__` return `self.__enter__()` / `self.__exit__(type_, value, traceback_)` -/\n"
         body += "def asyncContextDelegates : Bool := true\n"
     except (Unsupported, SyntaxError, KeyError, AttributeError, IndexError) as e:
